@@ -131,7 +131,13 @@ class Contract(object):
                         ref = a * A1
                     else:
                         ref = a * A1 + b * A2
-                    if not np.array_equal(got, ref.astype(got.dtype)):
+                    if np.asarray(ref).dtype.kind == 'f':
+                        # real scalars on an integer space: the exact entry is not representable; a conversion of it is one
+                        # of the neighbouring integers (NumPy assignment truncates, a composed evaluation may floor)
+                        okv = bool(np.all(np.abs(got.astype(float) - ref) < 1.0))
+                    else:
+                        okv = bool(np.array_equal(got, ref.astype(got.dtype)))
+                    if not okv:
                         ctx.violation(comp, cfg, 'wrong-value', got=got[:8], ref=ref[:8], a=a, b=b)
                 if x1 is not res and not np.array_equal(_flat(self, x1), A1, equal_nan=True):
                     ctx.violation(comp, cfg, 'operand-modified', which='x1')
@@ -214,9 +220,14 @@ SHAPES_BIG = [(49999,), (50000,), (50001,), (250, 200), (223, 225), (37, 27, 51)
 DTYPES = ['float64', 'float32', 'complex128', 'complex64', 'int64', 'int32']
 # dtypes outside the BLAS set (extended and half precision, short integers): same decision tree, other leaves
 DTYPES_EXTRA = [d for d in ('longdouble', 'clongdouble', 'float16', 'int16') if np.dtype(d).itemsize != np.dtype({'longdouble': 'float64', 'clongdouble': 'complex128'}.get(d, 'bool')).itemsize or d in ('float16', 'int16')]
-LAYOUTS = [('C', 'C', 'C'), ('F', 'F', 'F'), ('S', 'C', 'F'), ('C', 'S', 'S'), ('F', 'C', 'S')]
+# 'V': the three operands are interleaved, non-overlapping views of ONE buffer (columns of a matrix, real / imaginary parts):
+# distinct elements whose memory ranges overlap although no entry is shared
+LAYOUTS = [('C', 'C', 'C'), ('F', 'F', 'F'), ('S', 'C', 'F'), ('C', 'S', 'S'), ('F', 'C', 'S'), ('V', 'V', 'V')]
 PATTERNS = ['none', 'x1=x2', 'out=x1', 'out=x2', 'all']
 SCAL = [('0', 0), ('1', 1), ('-1', -1), ('gen', 2.5), ('gen2', -0.75), ('cplx', 1.5 - 0.5j)]
+# integer spaces: integer scalars, and real (dyadic, so exactly representable) scalars - the field of an integer tensor
+# space is the reals; the entry-wise result is a*x1 + b*x2 converted to the integer type the way NumPy assignment does
+SCAL_INT = [('0', 0), ('1', 1), ('-1', -1), ('gen', 10), ('gen2', -3), ('half', 0.5), ('frac', -1.25)]
 
 
 def mk_array(dt, layout, vals):
@@ -266,9 +277,9 @@ def run_lincomb_lattice(ctx, con):
             if len(shape) == 1 and layout3[0] == 'F' and layout3 != ('F', 'F', 'F'):
                 continue
             for pat in PATTERNS:
-                for (an, a0), (bn, b0) in itertools.product(SCAL, repeat=2):
-                    a = scalar_for(kind, an, a0)
-                    b = scalar_for(kind, bn, b0)
+                for (an, a0), (bn, b0) in itertools.product(SCAL_INT if kind in 'iu' else SCAL, repeat=2):
+                    a = scalar_for(kind, an, a0) if kind not in 'iu' else a0
+                    b = scalar_for(kind, bn, b0) if kind not in 'iu' else b0
                     if a is None or b is None:
                         continue
                     idx += 1
@@ -284,10 +295,15 @@ def run_lincomb_lattice(ctx, con):
                             continue
                     v1 = rand_vals(rng, shape, kind)
                     v2 = rand_vals(rng, shape, kind)
-                    x1 = sp.element(mk_array(dt, layout3[0], v1))
-                    x2 = sp.element(mk_array(dt, layout3[1], v2))
                     poison = np.full(shape, complex(np.nan, np.nan)) if kind == 'c' else (np.full(shape, np.nan) if kind == 'f' else np.full(shape, 12345))
-                    out = sp.element(mk_array(dt, layout3[2], poison))
+                    if layout3[0] == 'V':
+                        buf = np.zeros(shape + (3,), dtype=dt)
+                        buf[..., 0], buf[..., 1], buf[..., 2] = v1.astype(dt), v2.astype(dt), poison.astype(dt)
+                        x1, x2, out = sp.element(buf[..., 0]), sp.element(buf[..., 1]), sp.element(buf[..., 2])
+                    else:
+                        x1 = sp.element(mk_array(dt, layout3[0], v1))
+                        x2 = sp.element(mk_array(dt, layout3[1], v2))
+                        out = sp.element(mk_array(dt, layout3[2], poison))
                     if pat == 'x1=x2':
                         x2 = x1
                     elif pat == 'out=x1':
@@ -534,6 +550,8 @@ def run_api(ctx, con):
         scalars = [('0', 0), ('1', 1), ('-1', -1), ('gen', 2.5 if kind in 'fc' else 3), ('np', np.float64(-0.75) if kind in 'fc' else np.int64(-2))]
         if kind == 'c':
             scalars.append(('cplx', 1.5 - 0.5j))
+        if kind in 'iu':
+            scalars.append(('half', 0.5))
         n = sum(int(np.prod(l.shape)) for _p, l in util.leaves(sp))
         for (name, fn, ref, fl), (sn, s) in itertools.product(forms, scalars):
             if 's' not in name.replace('space', '').replace('set_zero', '').replace('assign', '') and sn != 'gen':
@@ -578,7 +596,12 @@ def run_api(ctx, con):
                                 ok = _tol_ok(got, R, mag, dt, ulps=ul)
                         else:
                             R = np.asarray(ref(X, Y, s))
-                            ok = bool(np.array_equal(got, R.astype(got.dtype)))
+                            if isinstance(s, float) and not float(s).is_integer():
+                                # a real scalar on an integer space: the exact entry is not representable and the library
+                                # composes several integer-valued steps; any neighbouring integer is a conversion of it
+                                ok = bool(np.all(np.abs(got.astype(float) - R.astype(float)) < 1.0))
+                            else:
+                                ok = bool(np.array_equal(got, R.astype(got.dtype)))
                     if r not in sp:
                         ctx.violation(comp, cfg, 'result-not-in-space')
                     if not ok:
@@ -872,6 +895,41 @@ def _leaf_arrays(x):
         yield (), np.asarray(x)
 
 
+def run_shared_buffer(ctx):
+    """Distinct elements that are views of one buffer without sharing an entry: real and imaginary part of a complex element,
+    columns of a matrix wrapped by ``space.element``.  They are different operands; nothing may treat them as one."""
+    rng = ctx.rng('shared-buffer')
+    forms = [('x+y', lambda x, y: x + y, lambda X, Y: X + Y, False), ('x-y', lambda x, y: x - y, lambda X, Y: X - Y, False),
+             ('x*y', lambda x, y: x * y, lambda X, Y: X * Y, False), ('2x+3y', lambda x, y: x.space.lincomb(2.0, x, 3.0, y), lambda X, Y: 2 * X + 3 * Y, False),
+             ('x+=y', lambda x, y: x.__iadd__(y), lambda X, Y: X + Y, True), ('x*=y', lambda x, y: x.__imul__(y), lambda X, Y: X * Y, True),
+             ('x-=2y', lambda x, y: x.space.lincomb(1.0, x, -2.0, y, out=x), lambda X, Y: X - 2 * Y, True)]
+    for n in (12, 300, 60000):
+        for kindname in ('real/imag', 'columns'):
+            for fname, fn, ref, inplace in forms:
+                ctx.ev('api-differential')
+                ctx.case('shared-buffer;%s;%s' % (kindname, fname), n)
+                cfg = '%s;%s' % (kindname, util.size_regime(n))
+                try:
+                    if kindname == 'real/imag':
+                        z = odl.cn(n).element(rng.normal(size=n) + 1j * rng.normal(size=n))
+                        x, y = z.real, z.imag
+                        if not (np.shares_memory(np.asarray(x), np.asarray(z)) or True):
+                            continue
+                    else:
+                        buf = rng.normal(size=(n, 2))
+                        x, y = odl.rn(n).element(buf[:, 0]), odl.rn(n).element(buf[:, 1])
+                    X, Y = np.asarray(x).copy(), np.asarray(y).copy()
+                    r = fn(x, y)
+                    got = np.asarray(r)
+                    want = ref(X, Y)
+                    if not np.allclose(got, want, rtol=1e-13, atol=1e-13):
+                        ctx.violation('api:' + fname, 'shared-buffer;' + cfg, 'wrong-value', got=got[:4], ref=want[:4])
+                    if not np.array_equal(np.asarray(y), Y) or (not inplace and not np.array_equal(np.asarray(x), X)):
+                        ctx.violation('api:' + fname, 'shared-buffer;' + cfg, 'operand-modified')
+                except Exception as e:
+                    ctx.violation('api:' + fname, 'shared-buffer;' + cfg, 'raises:' + type(e).__name__, message=str(e)[:200])
+
+
 def run(ctx):
     ctx.note('rule', 'cases = (API form | lincomb lattice point) x space x layouts x aliasing pattern x scalar '
                      'classes x seeded values; distinct = distinct (class, shape/layout/scalar-name/repetition) '
@@ -896,6 +954,8 @@ def run(ctx):
     run_api(ctx, con)
     run_raw_operands(ctx)
     run_zero_divisors(ctx)
+    if ctx.shard == 0:
+        run_shared_buffer(ctx)
     if ctx.thorough and ctx.shard == 0 and ctx.round == 0:
         # W-ambient: the contract on every lincomb / multiply / divide the repository's own suite executes
         from .c03 import ambient_suite
